@@ -28,4 +28,25 @@ HARNESSES = [
          rename_defs=dict(BITS, **{"lib/lh1_decoder.c": ["increment_for_code"]}), unwind=2 * n + 1,
          timeout=300, tier=tier)
     for n, tier in [(4, "both"), (6, "both")]
+] + [
+    dict(name="rebuild.n%d.p%d" % (n, parts), src="C02/rebuild.c", entry="harness_rebuild", defines=sc(n, lim) + ["PARTS=%d" % parts], unwind=2 * n + 1,
+         unwindset={"reconstruct_tree.1": n + 1, "reconstruct_tree.2": n + 1, "reconstruct_tree.3": n + 1, "lz_reconst.3": n + 1},
+         timeout=300, tier=tier)
+    for n, lim, tier in [(3, 16, "both"), (4, 32, "both"), (6, 64, "both")] for parts in (1, 14)
+] + [
+    dict(name="rebuild_step.n%d" % n, src="C02/rebuild.c", entry="harness_rebuild_step", defines=sc(n, lim), unwind=2 * n + 1,
+         unwindset={"reconstruct_tree.1": n + 1, "reconstruct_tree.2": n + 1, "reconstruct_tree.3": n + 1, "lz_reconst.3": n + 1},
+         timeout=300, tier=tier)
+    for n, lim, tier in [(3, 16, "both"), (4, 32, "both")]
+] + [
+    dict(name="offset", src="C02/offset.c", defines=["BITS_SPEC"], rename_defs=BITS, unwind=7,
+         unwindset={"gen_tables.0": 25, "gen_tables.2": 65, "gen_tables.3": 65, "gen_tables.4": 257, "init_offset_table.0": 25, "fill_offset_range.0": 34, "bs_ref.0": 9},
+         timeout=300),
+    dict(name="copy.c12", src="C02/copy.c", defines=["MAXCOUNT=12"], rename_defs={"lib/lh1_decoder.c": ["read_code", "read_offset"]},
+         unwindset={"lha_lh1_read.0": 13}, flags=["--arrays-uf-always"], timeout=300),
+    dict(name="copy.c60", src="C02/copy.c", defines=["MAXCOUNT=60"], rename_defs={"lib/lh1_decoder.c": ["read_code", "read_offset"]},
+         unwindset={"lha_lh1_read.0": 61}, flags=["--arrays-uf-always"], timeout=900, tier="thorough"),
+    dict(name="copy.init", src="C02/copy.c", entry="harness_init", rename_defs={"lib/lh1_decoder.c": ["read_code", "read_offset"]},
+         unwindset={"memset.0": 4098}, timeout=120),
+    dict(name="params", src="C02/params.c", unwind=630, unwindset={"memset.0": 4098, "lha_decoder_for_name.0": 20, "strcmp.0": 8, "fill_offset_range.0": 34}, flags=["--max-field-sensitivity-array-size", "700"], timeout=300),
 ]
